@@ -264,6 +264,19 @@ def gen_pairs(ctx, n):
         x, y = w(x), w(y)
         if FAM.in_universe(x, y):
             out.append((x, y))
+    # instants (aware datetimes, in several offsets, with and without a sub-second part) inside order-ignored lists: == decides
+    import datetime as _dt
+    tz = lambda h, m=0: _dt.timezone(_dt.timedelta(hours=h, minutes=m))
+    D0 = _dt.datetime(2021, 3, 4, 12, 30, 15, tzinfo=tz(0))
+    stamps = [D0, D0.replace(microsecond=1), D0.replace(microsecond=999999), D0.replace(microsecond=500000), D0.astimezone(tz(5, 30)), D0.replace(microsecond=1).astimezone(tz(-8)),
+              D0.replace(second=16), _dt.datetime(2021, 3, 4, 12, 30, 15, 250000, tzinfo=tz(2)), _dt.datetime(1999, 12, 31, 23, 59, 59, 999999, tzinfo=tz(0))]
+    for _ in range(max(8, n // 12)):
+        xs = [ctx.rng.choice(stamps) for _ in range(ctx.rng.randint(1, 4))] + ctx.rng.sample([0, 'a', None, 2.5], ctx.rng.randint(0, 2))
+        ys = [s if ctx.rng.random() < 0.6 else ctx.rng.choice(stamps) for s in xs]
+        ctx.rng.shuffle(ys)
+        w = ctx.rng.choice([lambda v: v, lambda v: {'log': v, 'n': 1}, lambda v: [v, [0]], lambda v: (v, 'z')])
+        out.append((w(xs), w(ys)))
+    out += [([D0, 1], [1, D0.replace(microsecond=7)]), ({'t': [D0.replace(microsecond=3)]}, {'t': [D0.replace(microsecond=4)]}), ([[D0, D0.replace(microsecond=1)]], [[D0.replace(microsecond=1), D0]])]
     return out
 
 
@@ -314,6 +327,26 @@ def run(ctx, impl_only=False):
             ctx.violate({'t1': repr(s1), 't2': repr(s2), 'report_repetition': None, 'knobs': {}}, 'an input was modified')
         if len(ctx.samples) < 5:
             ctx.sample({'t1': repr(t1)[:120], 't2': repr(t2)[:120], 'equal_as_sets': nset_eq(t1, t2, False), 'equal_as_multisets': nset_eq(t1, t2, True)})
+    # ---- values DeepDiff identifies although Python's == does not (a naive datetime and the same wall clock marked UTC): whichever way they are counted, the
+    # verdict must not depend on the knobs
+    import datetime as _dt
+    N0 = _dt.datetime(2022, 5, 6, 7, 8, 9, 120)
+    A0 = N0.replace(tzinfo=_dt.timezone.utc)
+    for (t1, t2) in [([N0, 1, 'a'], ['a', A0, 1]), ({'k': [N0, N0.replace(second=1)]}, {'k': [A0.replace(second=1), A0]}), ([[N0], [1]], [[1], [A0]]), ((N0, 2), (2, A0)),
+                     ([N0, A0.replace(year=2000)], [N0.replace(year=2000), A0]), ([{'at': N0, 'v': 1}, {'at': A0, 'v': 2}], [{'at': N0, 'v': 2}, {'at': A0, 'v': 1}])]:
+        for rep in (False, True):
+            verdicts = {}
+            fixed = [dict(max_passes=0), dict(cutoff_intersection_for_pairs=0), dict(cutoff_distance_for_pairs=0), dict(max_passes=1, cache_size=50), dict()]
+            for kn in fixed + [knob_choice(ctx.rng) for _ in range(3)]:
+                ctx.evaluations += 1
+                try:
+                    dd = DeepDiff(t1, t2, ignore_order=True, report_repetition=rep, **kn)
+                except Exception as e:
+                    ctx.violate({'t1': repr(t1), 't2': repr(t2), 'report_repetition': rep, 'knobs': kn}, 'DeepDiff raised %s' % type(e).__name__); continue
+                verdicts[repr(sorted(kn.items()))] = (dd == {})
+            ctx.count('naive_aware:%s' % sorted(set(verdicts.values())))
+            if len(set(verdicts.values())) > 1:
+                ctx.violate({'t1': repr(t1), 't2': repr(t2), 'report_repetition': rep, 'knobs': 'several'}, 'the verdict depends on the knobs: %r' % verdicts)
     # ---- repaired: numpy booleans in an order-ignored list (finding F48)
     try:
         import numpy as np
